@@ -679,7 +679,7 @@ Section Level.
     intros Hn HDd Hall Htags Hunk Hf. destruct (all_fields_nth _ rs fs xs Hall) as [Hl Hfc].
     pose proof (schema_ok_fields sc j fs Hs Hn) as Hok. pose proof (schema_ok_tags sc j fs Hs Hn) as Htg.
     assert (Hnd : nodupZ (flat_map field_tags fs) = true).
-    { unfold schema_ok in Hs. rewrite forallb_forall in Hs. pose proof (nth_error_In _ _ Hn) as Hin. specialize (Hs fs Hin).
+    { unfold schema_ok in Hs. apply andb_prop in Hs. apply proj1 in Hs. rewrite forallb_forall in Hs. pose proof (nth_error_In _ _ Hn) as Hin. specialize (Hs fs Hin).
       unfold msgdesc_ok in Hs. apply andb_prop in Hs. tauto. }
     destruct (msg_engine sc dm j c fs Hn ltac:(lia) rs (map (default_field (dt0 sc Dd')) fs) (fun p => nth p xs (VI 0)))
       as (xs' & Hrun & Hl' & Hnth).
